@@ -334,9 +334,13 @@ def check_limits_validation(ctx, rep, f):
     g = cfg_of(f)
     lim = [p for p in f.params if p.get("name") == "limits"]
     if not lim:
-        rep.unknown("G18", f.decl, f, "net limits", "no parameter named limits")
+        # role-based fallback: the first vector<int> parameter of setNets (pin storage is the second)
+        vi = [p for p in f.params if "vector<int>" in qt(p)]
+        lim = vi[:1] if len(vi) >= 2 else []
+    if not lim:
+        rep.unknown("G18", f.decl, f, "net limits", "limits parameter not identified")
         return
-    lv = ("var", lim[0].get("id"), "limits")
+    lv = ("var", lim[0].get("id"), lim[0].get("name"))
     atoms = {"N": lambda c: c == ("call", "size", lv)}
     covered = None
     problems = []
@@ -398,18 +402,24 @@ def check_limits_validation(ctx, rep, f):
     ws = s["writes"].get(CQ + "Circuit::netLimits_", [])
     okdom = done is not None and all(g.dominates(done, g.node_for(u.node)) for _x, u in ws)
     ends = {"front": False, "back": False}
+    vparams = {p.get("id") for p in f.params if "vector" in qt(p) and p.get("id") != lv[1]}
     for _x, u in ws:
         for gc, val, _a, _b in (ctx.guards(f, u.node) or []):
-            t = pretty(gc)
-            if "limits.front()" in t and "0" in t and ((gc[1] == "!=" and val is False) or (gc[1] == "==" and val is True)):
-                ends["front"] = True
-            if "limits.back()" in t and "cells.size()" in t and ((gc[1] == "!=" and val is False) or (gc[1] == "==" and val is True)):
-                ends["back"] = True
+            if gc[0] != "bin" or gc[1] not in ("==", "!="):
+                continue
+            if not ((gc[1] == "!=" and val is False) or (gc[1] == "==" and val is True)):
+                continue
+            sides = (gc[2], gc[3])
+            for a, b in (sides, sides[::-1]):
+                if a == ("call", "front", lv) and b[0] == "lit" and str(b[1]).rstrip("uUlL") == "0":
+                    ends["front"] = True
+                if a == ("call", "back", lv) and b[0] == "call" and b[1] == "size" and b[2][0] == "var" and b[2][1] in vparams:
+                    ends["back"] = True
     if okdom and all(ends.values()):
         rep.holds("G18", loop, f, "net limits: first == 0, every adjacent pair non-decreasing, last == number of pins, all before anything is stored")
     else:
         rep.violation("G18", loop, f, "net limits are not fully validated before they are stored",
-                      "pairwise loop completes before the store: %s; front()==0 checked: %s; back()==cells.size() checked: %s" % (okdom, ends["front"], ends["back"]),
+                      "pairwise loop completes before the store: %s; front()==0 checked: %s; back()==<pin vector>.size() checked: %s" % (okdom, ends["front"], ends["back"]),
                       key="Circuit::setNets|limits validation not before store")
 
 
@@ -426,7 +436,14 @@ def check_pin_validation(ctx, rep, f):
         return
     cells_p = [p for p in f.params if p.get("name") == "cells"]
     if not cells_p:
-        rep.unknown("G18", f.decl, f, "pin storage", "no parameter named cells")
+        # role-based fallback: the parameter that is stored into pinCells_
+        for x, u in writes:
+            for t in subterms(canon(u.node)):
+                for p in f.params:
+                    if t[0] == "var" and t[1] == p.get("id") and "vector<int>" in qt(p) and p not in cells_p:
+                        cells_p.append(p)
+    if not cells_p:
+        rep.unknown("G18", f.decl, f, "pin storage", "the parameter holding the pins' cells was not identified")
         return
     cp = cells_p[0]
     loops = validated_loops(ctx, f, cp)
@@ -448,13 +465,29 @@ def check_pin_validation(ctx, rep, f):
         rep.holds("G18", f.decl, f, "pin cell indices validated before storage", "%d write(s) dominated by a validating loop" % len(writes))
 
 
-def validated_loops(ctx, f, cells_param):
-    """'done' edges of loops over cells_param whose body falls through only when 0 <= elem < nbCells()."""
+def validated_loops(ctx, f, cells_param, _depth=0):
+    """'done' edges of loops over cells_param whose body falls through only when 0 <= elem < nbCells(); a call that hands the
+    vector to a helper which runs such a loop on every normal path counts as well (the call's CFG node is returned)."""
     g = cfg_of(f)
     out = []
     pid = cells_param.get("id")
     for x in walk(f.body):
         k = x.get("kind")
+        if k in ("CXXMemberCallExpr", "CallExpr") and _depth < 2:
+            ci = callee_info(x)
+            if ci and any(canon(a)[:2] == ("var", pid) for a in ci["args"]):
+                _c, hs = ctx.eff.resolve_callee(x)
+                for h in hs:
+                    if h.body is None or h.key == f.key:
+                        continue
+                    for j, a in enumerate(ci["args"]):
+                        if canon(a)[:2] == ("var", pid) and j < len(h.params):
+                            hg = cfg_of(h)
+                            for de in validated_loops(ctx, h, h.params[j], _depth + 1):
+                                if hg.exit.idx not in hg.reachable_from([hg.entry], avoid=[de]):
+                                    n = g.node_for(x)
+                                    if n is not None:
+                                        out.append(n)
         if k == "CXXForRangeStmt":
             ch = list(inner(x))
             try:
